@@ -1,6 +1,7 @@
 import PercevalModel.Proto
 import PercevalModel.Model.C18
 import PercevalModel.Model.C18Ext
+import PercevalModel.Model.C18Race
 
 /-!
   Line-protocol driver of the C18 model.
@@ -16,6 +17,11 @@ import PercevalModel.Model.C18Ext
   REPLY = "none" | "other" | {"dict": null|true|false};   PRESET = {"k":"probsNative"} | {"k":"sampleViaProbs","shots":nat|null}
   | {"k":"probsViaSamples","count":n} | {"k":"samplesNative","conv":b};   PROG = {"reports":[n…],"result":RET,"partial":RET,
   "policy":"ignore"|"raise"|"stop"};   CEV = {"e":"tick","u":REPLY} | a caller event
+
+  {"op":"race","fixed":b,"cfg":CFG,"word":[REV…]}                  → {"outs":[{"acc":…,"o":OUT|null,"pc":ACC|null,"pw":ACC|null}|{"o":"disabled"}…],"final":…}
+      (`rstep`, Model/C18Race: one access to the shared memory per step; "pc"/"pw" = the access the caller / the worker
+       performs NEXT after this step, null when it has none);  REV = {"e":"exec",…call…} | {"e":"begin","a":"status"|"cancel"|"get"}
+       | {"e":"c"} | {"e":"w"} | {"e":"task","t":{"e":"prog","p":n}|{"e":"ret","r":RET}|{"e":"raise","cls":n,"msg":n}}
 
   DICT = [[key, nat|null], …] with distinct keys;  VAL = nat | {"m":VAL,"kw":DICT}
   RET  = {"t":"none"} | {"t":"plain","n":n} | {"t":"dict","v":VAL} | {"t":"dlist","l":[[DICT,VAL],…]}
@@ -206,6 +212,51 @@ def stateJ (s : State) : Json :=
     ("cbOpen", toJson s.cbOpen), ("results", retJ s.results), ("mapPending", toJson s.mapPending),
     ("cbLog", .arr (s.cbLog.map fun e => Json.arr #[toJson e.1, toJson e.2]).toArray)]
 
+def revOf (j : Json) : Except String REv := do
+  match (← strOf j "e") with
+  | "exec" => return .exec (← callOf j)
+  | "begin" =>
+    match (← strOf j "a") with
+    | "status" => return .begin .status
+    | "cancel" => return .begin .cancel
+    | "get" => return .begin .get
+    | a => throw s!"bad action {a}"
+  | "c" => return .c
+  | "w" => return .w
+  | "task" =>
+    let t ← j.getObjVal? "t"
+    match (← strOf t "e") with
+    | "prog" => return .task (.prog (← natOf t "p"))
+    | "ret" => return .task (.ret (← retOf (← t.getObjVal? "r")))
+    | "raise" => return .task (.raise (← natOf t "cls") (← natOf t "msg"))
+    | e => throw s!"bad task step {e}"
+  | e => throw s!"bad race event {e}"
+
+def accJ : Acc → Json
+  | .none => "none" | .rSt => "R_status" | .wSt => "W_status" | .rMsg => "R_stop_message" | .wMsg => "W_stop_message"
+  | .rProg => "R_running_progress" | .wProg => "W_running_progress" | .rCancel => "R_cancel_requested"
+  | .wCancel => "W_cancel_requested" | .wResults => "W_results" | .rAlive => "R_alive" | .exit => "exit"
+
+def nextAccJ : ROut → Json
+  | .step a _ => accJ a
+  | .disabled => Json.null
+
+def routJ (fixed : Bool) (s : RState) : ROut → Json
+  | .disabled => Json.mkObj [("o", "disabled")]
+  | .step a o => Json.mkObj [("acc", accJ a), ("o", match o with | some o => outJ o | none => Json.null),
+      ("pc", nextAccJ (callerStep fixed s).2), ("pw", nextAccJ (workerStep s).2)]
+
+def wpcJ : WPc → Json
+  | .entry => "entry" | .inTask => "inTask" | .prog1 _ => "prog1" | .prog1b _ => "prog1b" | .prog2 _ => "prog2"
+  | .prog3 _ => "prog3" | .ret1 _ => "ret1" | .ret2 _ => "ret2" | .stop1 _ _ => "stop1" | .stop2 _ => "stop2"
+  | .stop3 _ _ => "stop3" | .exc1 _ _ => "exc1" | .exc2 _ _ => "exc2" | .exiting _ => "exiting" | .dead _ => "dead"
+
+def rstateJ (s : RState) : Json :=
+  Json.mkObj [("status", stJ s.st), ("msg", msgJ s.msg), ("p", toJson s.prog), ("cancelReq", toJson s.cancelReq),
+    ("results", retJ s.results), ("mapPending", toJson s.mapPending), ("alive", toJson s.alive),
+    ("started", toJson s.started), ("fnCalls", toJson s.fnCalls), ("wpc", wpcJ s.wpc),
+    ("idle", toJson (decide (s.cpc = CPc.idle)))]
+
 def handleE (j : Json) : Except String Json := do
   let op ← strOf j "op"
   if op == "preset" then
@@ -226,6 +277,16 @@ def handleE (j : Json) : Except String Json := do
          | .caller _ => Json.null) :: evs (cstep fixed cfg pr c e).1 w
     return Json.mkObj [("outs", .arr (r.2.map outJ).toArray), ("evs", .arr (evs (cinit cfg pr) word).toArray),
       ("final", (stateJ r.1.job).mergeObj (Json.mkObj [("todo", toJson r.1.todo), ("seen", verdictJ r.1.seen)]))]
+  if op == "race" then
+    let word ← (← arrOf j "word").toList.mapM revOf
+    let rec go (s : RState) : List REv → List Json × RState
+      | [] => ([], s)
+      | e :: w =>
+        let r := rstep fixed cfg s e
+        let rest := go r.1 w
+        (routJ fixed r.1 r.2 :: rest.1, rest.2)
+    let r := go (rinit cfg) word
+    return Json.mkObj [("outs", .arr r.1.toArray), ("final", rstateJ r.2)]
   let word ← (← arrOf j "word").toList.mapM xevOf
   match op with
   | "trace" =>
